@@ -514,6 +514,13 @@ class Ctx(object):
         self.analysed = {}
         self.notes = []
 
+    def floor_failures(self):
+        counts = {}
+        for ob in self.obs:
+            counts[ob.rule] = counts.get(ob.rule, 0) + 1
+        return ['%s: %d instance(s) found, floor %d' % (rid, counts.get(rid, 0), fl)
+                for rid, fl in self.floors.items() if counts.get(rid, 0) < fl]
+
     def rule(self, rid, text, floor=1):
         self.rules[rid] = text
         self.floors[rid] = floor
@@ -575,10 +582,7 @@ def finish(ctx, level, explanation, t0, extra_cov=None, trusted_base=None):
     counts = {}
     for ob in ctx.obs:
         counts[ob.rule] = counts.get(ob.rule, 0) + 1
-    floor_fail = []
-    for rid, fl in ctx.floors.items():
-        if counts.get(rid, 0) < fl:
-            floor_fail.append('%s: %d instance(s) found, floor %d' % (rid, counts.get(rid, 0), fl))
+    floor_fail = ctx.floor_failures()
     if floor_fail:
         raise AnalysisError('rule instance floor not met (a rule matching nothing passes '
                             'vacuously): ' + '; '.join(floor_fail))
